@@ -517,6 +517,44 @@ def instantiate_fn(fs, item, em):
         contract_marker = "\n\x00CONTRACT\x00\n    "
         edits.append((sh.sig_end, sh.sig_end, contract_marker))
 
+    # ---- automatic rule R-param-pattern: a tuple-pattern parameter `(a, b): T` becomes `__argN: T` with `let (a, b) = __argN;`
+    # as the first statement (Verus accepts only identifier parameters)
+    if sh.has_body:
+        j = sh.params_open + 1
+        pn = 0
+        lets = []
+        while j < sh.params_close:
+            # j is at the start of a parameter
+            if toks[j].text == "(":
+                pc = match_close(toks, j)
+                if toks[pc + 1].text == ":":
+                    pat = text[toks[j].start:toks[pc].end]
+                    edits.append((toks[j].start, toks[pc].end, "__arg%d" % pn))
+                    lets.append("let %s = __arg%d;" % (pat, pn))
+                    log.append("R-param-pattern: parameter pattern `%s` bound by a let at the start of the body" % pat)
+            # advance to the next top-level comma
+            while j < sh.params_close and toks[j].text != ",":
+                if toks[j].kind == "punct" and toks[j].text in OPEN:
+                    j = match_close(toks, j)
+                elif toks[j].text == "<":
+                    j = angle_skip(toks, j) - 1
+                j += 1
+            j += 1
+            pn += 1
+        if lets:
+            bo = toks[sh.body_open].end
+            edits.append((bo, bo, " " + " ".join(lets)))
+        # ---- automatic rule R-mut-self: `mut self` (unsupported by Verus) becomes `self` with `let mut __self = self;`
+        # and every `self` in the body alpha-renamed to `__self`
+        a = sh.params_open + 1
+        if toks[a].text == "mut" and toks[a + 1].text == "self":
+            edits.append((toks[a].start, toks[a + 1].end, "self"))
+            bo = toks[sh.body_open].end
+            edits.append((bo, bo, " let mut __self = self;"))
+            for q in range(sh.body_open + 1, sh.body_close):
+                if toks[q].kind == "ident" and toks[q].text == "self":
+                    edits.append((toks[q].start, toks[q].end, "__self"))
+            log.append("R-mut-self: `mut self` bound by `let mut __self = self;`, `self` renamed to `__self` in the body")
     if sh.has_body:
         lo, hi = sh.body_open, sh.body_close
         # ---- automatic rule R-assert-eq: assert_eq!(A, B) -> assert!((A) == (B))  (Verus has no assert_eq!)
